@@ -179,6 +179,14 @@ theorem active_certifies (net : Net) (d : Dep) (n : Node) (h : bip9State net d n
   obtain ⟨i, g1, g2, _, g4⟩ := Char.lockedIn_certifies net d n _ h3
   exact ⟨i, j, g1, by omega, h2, g4, h4⟩
 
+/-- A warning ("unknown rules activated") is only ever raised for a bit that collected at least the
+    network threshold of unknown-signalling blocks in one earlier window of this very chain. -/
+theorem warning_active_certifies (net : Net) (deps : List Dep) (bit : Nat) (n : Node)
+    (h : Warn.state net deps bit n = .active) :
+    ∃ j, 1 ≤ j ∧ j < n.length / net.window ∧
+      net.threshold ≤ Warn.votes net deps bit net.window (Char.bnd net n j) :=
+  Char.warn_active_certifies net deps bit n _ h
+
 /-! ### next block version -/
 
 /-- `calcNextBlockVersion` (through the caches) computes the Spec's version. -/
